@@ -184,4 +184,14 @@ theorem map4_dims (f : α → α) (q : V4 α) (k c h w : Nat) (d : Dims4 q k c h
   rw [← h2]
   exact map3_dims f t' c h w (d.2 t' h1)
 
+
+/-! ### positional access into a `zipWith` -/
+theorem getD_zipWith {β γ δ : Type} (f : β → γ → δ) (a : List β) (b : List γ) (i : Nat) (da : β) (db : γ) (dd : δ)
+    (ha : i < a.length) (hb : i < b.length) :
+    (List.zipWith f a b).getD i dd = f (a.getD i da) (b.getD i db) := by
+  simp [List.getD_eq_getElem?_getD, List.getElem?_zipWith, List.getElem?_eq_getElem ha, List.getElem?_eq_getElem hb]
+
+theorem getD_mem' {β : Type} (l : List β) (i : Nat) (d : β) (h : i < l.length) : l.getD i d ∈ l := by
+  simp [List.getD_eq_getElem?_getD, List.getElem?_eq_getElem h]
+
 end L
